@@ -12,7 +12,7 @@ KINDS = c08mod.KINDS
 
 
 def jb(s):
-    return list(s.encode("utf-8"))
+    return list(s) if isinstance(s, (bytes, list)) else list(s.encode("utf-8"))      # a list is raw bytes
 
 
 def jtree(t):
@@ -27,7 +27,7 @@ def jtree(t):
 
 
 def cq_str(s):
-    return cq_bytes(s.encode("utf-8"))
+    return cq_bytes(bytes(s) if isinstance(s, (bytes, list)) else s.encode("utf-8"))
 
 
 def cq_tbl(t):
@@ -108,7 +108,7 @@ class C07:
                         k = rng.choice(["arg", "default", "wd"])
                         pcs.append({"c": "arg", "a": rng.choice(STRS)} if k == "arg" else
                                    {"c": "default", "v": rng.choice([True, False])} if k == "default" else
-                                   {"c": "wd", "d": rng.choice([None, ".", "/srv", "a b", ""])})
+                                   {"c": "wd", "d": rng.choice([None, ".", "/srv", "a b", "", "./dist", "caf\u00e9", list(b"dist/caf\xe9"), list(b"\xff\xfe")])})
                     calls.append({"c": "process", "ty": rng.choice(["web", "worker", "a.b_c-1"]),
                                   "cmd": [rng.choice(STRS) for _ in range(rng.randint(0, 3))], "calls": pcs})
                 elif r < 0.8:
